@@ -8,49 +8,49 @@ CLAIMED = {
     "C16": dict(
         category="fault_enumeration",
         technique="deterministic simulation: simulated thread pool behind quimb's real pool cache, seeded schedule/fault search (task completion order, stalled worker, run-at-submit, snapshot-merge simultaneity, pool switches) vs single-threaded reference; plus enumerated partition grid",
-        text="Seeded search over schedules of the real threaded routines under a simulated executor (every completion order a FIFO pool of that capacity can produce, stalls, eager starts, simultaneous groups), poison-filled outputs so an unwritten element cannot hide, bit-for-bit comparison with the single-threaded form; the partition arithmetic is additionally enumerated over a bounded grid as the property asks. Sampling: evidence, not proof.",
+        text="Seeded search over schedules of the real threaded routines under a simulated executor (every completion order a FIFO pool of that capacity can produce, stalls, eager starts, simultaneous groups), poison-filled outputs so an unwritten element cannot hide, bit-for-bit comparison with the single-threaded form (randn: schedule independence at fixed (seed, num_threads), and for drawn scale / loc equality with scale*randn()+loc of its own unscaled draw); the partition arithmetic is additionally enumerated over a bounded grid as the property asks. Sampling: evidence, not proof.",
         design_ref="DESIGN.md §3.1",
         note="Trusts numpy/scipy serial expressions as reference; concurrency inside one nogil kernel call is modelled at task granularity (atomic tasks + snapshot-merge); no OS threads are used for verdicts.",
     ),
     "C14": dict(
         category="fault_enumeration",
         technique="deterministic simulation of belief propagation as a message-passing system: simulator-owned activation schedule (touched), message loss / staleness / duplication / corruption / knob changes, settled-message reference model, bounded-round convergence after faults stop; plus library-scheduled runs over drawn options",
-        text="Seeded random forests (hyper-edges, dangling indices, several components, lazy site groups) for all six BP flavours. Configuration B replaces the round loop by a recorded activation schedule with injected message faults; after every quantum every message the model proves settled must equal the exact message, and after the faults stop all messages, the contraction value and all marginals must be exact within diameter-bounded fair rounds (or after the library's own run()). Configuration A runs the library loop under drawn update / damping / local-convergence / normalisation / initial-message / insertion-order options and the function entry points; value, all marginals and every message are compared with the exact ones, the loop / generalised-loop expansions must reduce to the exact value on trees, and gauging / untruncated compression (D2BP and L2BP entry points) must leave the dense state unchanged. Sampling: evidence, not proof.",
+        text="Seeded random forests (hyper-edges, dangling indices, several components, lazy site groups) for all six BP flavours. Configuration B replaces the round loop by a recorded activation schedule with injected message faults; after every quantum every message the model proves settled must equal the exact message, and after the faults stop all messages, the contraction value and all marginals must be exact within diameter-bounded fair rounds (or after the library's own run()). Configuration A runs the library loop under drawn update / damping / local-convergence / normalisation / distance (L1, L2, Linf, L2phased, cosine) / initial-message / insertion-order options and the function entry points; value, all marginals and every message are compared with the exact ones, the loop / generalised-loop expansions must reduce to the exact value on trees, and gauging / untruncated compression (D2BP and L2BP entry points) must leave the dense state unchanged. Sampling: evidence, not proof.",
         design_ref="DESIGN.md §3.2",
         note="Dense numpy einsum of <= 8 small tensors is the exact reference; signed/complex data judged only undamped and when every exact message is well conditioned; HV1BP pool tasks scheduled by the simulated pool.",
     ),
     "C02": dict(
         category="fault_enumeration",
         technique="deterministic simulation: seeded interleaving of public operations over several tensor networks sharing tensors, with lifecycle faults (view death now / at delayed GC, hash-address reuse through a simulated allocator, pickle/deepcopy restarts, forked name generator); fresh-scan reference + global ownership relation checked after every step",
-        text="Up to 5 live networks over a shared pool of tensors with labels/tags from tiny alphabets; ~60 operation spellings incl. views, partitions, renames through any holder, structural rewrites. After every step each live network's ind_map / tag_map / inner-outer sets / sizes / check() are compared with a fresh scan, the owners registry with the true holding relation, selections with brute force, and combine results with the no-merge / no-outer-rename rules. Faults decide when viewing networks die, whether a dead network's hash is re-issued, restarts and name-generator forks. Sampling: evidence, not proof.",
+        text="Up to 5 live networks over a shared pool of tensors with labels/tags from tiny alphabets; ~80 operation spellings incl. views (copy(virtual), view_as / view_like), partitions, renames through any holder (also creating, moving and dissolving labels repeated on one tensor), structural rewrites with their options, make_tids_consecutive(tid0), squeeze / mangle_inner_ options. After every step each live network's ind_map / tag_map / inner-outer sets / sizes / check() are compared with a fresh scan, the owners registry with the true holding relation, selections with brute force, and combine results with the no-merge / no-outer-rename rules. Faults decide when viewing networks die, whether a dead network's hash is re-issued, restarts and name-generator forks. Sampling: evidence, not proof.",
         design_ref="DESIGN.md §3.3",
-        note="Operations are called inside their documented domains (arguments drawn from state; size-compatible adds); three genuine defects are listed in known_findings.json (F6, F8b, F13) and the default generator keeps their triggers rare.",
+        note="Operations are called inside their documented domains (arguments drawn from state; size-compatible adds); F6 (one network holding one tensor object twice) is the one open finding in known_findings.json and the default generator keeps its trigger rare; F8a/F8b/F13/F21 were repaired in /repo and their triggers are ordinary inputs now; the fork fault is a real os.fork() child building a network.",
     ),
     "C11": dict(
         category="exploration",
         technique="deterministic simulation: seeded history search (target times, steps, orders, generator abandonment, shared Hamiltonian, apply_to_arrays) against an independent dense product-formula model, with the id()-keyed operator caches of LocalHamGen running on a simulated allocator whose address re-use is a recorded decision",
-        text="Random site-dependent non-exchange-symmetric Hamiltonians (L 2-6, open/periodic, H1 forms) and up to two TEBD objects sharing one; after every update_to / step / at_times yield the time, the dense state (vs my own statement of the order-1/2/4 formulas incl. the final partial step), the norm and the error estimate are checked; get_gate / get_gate_expm / get_trotter_gates against expm of the current stored terms; sum of terms against the supplied H2+H1; convergence order on fresh evolutions. Address re-use after apply_to_arrays is injected through the allocator seam. Sampling: evidence, not proof.",
+        text="Random site-dependent non-exchange-symmetric Hamiltonians (L 2-6, open/periodic, H1 forms) and up to two TEBD objects sharing one; after every update_to / step / at_times yield the time, the dense state (vs my own statement of the order-1/2/4 formulas incl. the final partial step), the norm and the error estimate are checked; get_gate / get_gate_expm / get_trotter_gates against expm of the current stored terms; sum of terms against the supplied H2+H1; convergence order on fresh evolutions. Address re-use after apply_to_arrays is injected through the allocator seam. Progress bars (the library default) run for real with output disabled in a third of the runs. Sampling: evidence, not proof.",
         design_ref="DESIGN.md §3.6",
         note="scipy.linalg.expm and dense tensordot are the reference; periodic chains run with cutoff 1e-13 under a sweep budget (bond doubling); on odd periodic chains only a decrease of the error is demanded, as the property states.",
     ),
     "C08": dict(
         category="exploration",
         technique="deterministic simulation: seeded history search threading one canonical-centre record (and suspended sampler generators) through every record-taking MPS operation, per-step isometry-defect monitor + dense state model + dense-defined values of every canonical-form query; shrunk, replayable traces",
-        text="One MPS (L 2-6, site-dependent physical dims, real/complex, optionally unnormalised) and one info dict handed to canonicalize / shift / compress_site / gates in every MPS mode (incl. non-unitary operators, reversed and non-adjacent sites, swap_back=False) / swaps with every absorb / sub-MPO / measure / all canonical readers / sample generators suspended across other operations, in info=, cur_orthog= or omitted spelling, plain or in-place. After every step: record soundness from independently computed isometry defects, left_inds flags, dense state vs model, reader values vs dense. Rejected calls must leave state untouched. Sampling: evidence, not proof.",
+        text="One MPS (L 2-6, site-dependent physical dims, real/complex, optionally unnormalised) and one info dict handed to canonicalize / shift / compress_site / gates in every MPS mode (incl. non-unitary operators, reversed and non-adjacent sites, swap_back=False) / swaps with every absorb / sub-MPO / measure / all canonical readers with their non-default arguments (direction, get forms, method, descending where) / sample generators suspended across other operations, in info=, cur_orthog= or omitted spelling, plain or in-place. After every step: record soundness from independently computed isometry defects, left_inds flags, dense state vs model, reader values vs dense. Rejected calls must leave state untouched. Sampling: evidence, not proof.",
         design_ref="DESIGN.md §3.5",
         note="Generic-path gates neither read nor write the record: the simulated user resets it after them unless the gate is a single-site unitary; all compressions use cutoff=0; no fault kinds exist in this sequential code besides rejected calls and abandoned generators.",
     ),
     "C07": dict(
         category="exploration",
         technique="deterministic simulation: seeded interleaving of gate application, parameter updates, forks, queries, suspended sampler generators, rejected gates, abandoned generators and settrace-injected interrupts inside cached readers, over all five circuit simulator classes; dense state-vector reference model built from the circuit's own gate record",
-        text="Up to three circuit objects (Circuit in every contract mode, CircuitDense, CircuitMPS, CircuitPermMPS, CircuitMPSLazy; 2-5 qubits) driven over the full registered gate vocabulary with drawn parameters, controls, raw unitaries, SWAP/IDEN, parametrize and all spellings; every gate's matrix is checked unitary; after rejected gates the record must be unchanged and later queries still exact; every reader (to_dense, amplitude, uni, partial_trace, local_expectation incl. lists and dtype, compute_marginal with fix, simplified psi / rdm, fidelity_estimate) is compared with the model; samplers are generators suspended across writer steps and must yield supported strings; a seeded sampler run on the live circuit must equal the same sampler on a fresh replica of its recorded gates (history independence, double precision); a third of the runs use a sparse-support gate vocabulary so wrong distributions show as unsupported strings; interrupts are raised at a recorded line inside readers of the exact classes and later queries must still be right. Sampling: evidence, not proof.",
+        text="Up to three circuit objects (Circuit in every contract mode, CircuitDense, CircuitMPS, CircuitPermMPS, CircuitMPSLazy; 2-5 qubits) driven over the full registered gate vocabulary with drawn parameters, controls, raw unitaries, SWAP/IDEN, parametrize and all spellings; every gate's matrix is checked unitary; after rejected gates the record must be unchanged and later queries still exact; every reader (to_dense, amplitude, uni, partial_trace, local_expectation incl. lists and dtype, compute_marginal with fix, simplified psi / rdm, fidelity / error_estimate) is compared with the model, in 40% of the calls with non-default arguments (simplify_sequence, equalize_norms, optimize, reverse, dtype) and optionally after a rehearsal of the same query; a fifth of the circuits start from a caller-supplied entangled MPS psi0; parameters are updated directly, through update_params_from and through registered named parameters with string / callable / constant expressions (a quarter of the runs concentrate on parametrized Circuits); parametrized gates are also sent to the classes that must refuse them; samplers are generators suspended across writer steps and must yield supported strings; a seeded sampler run on the live circuit must equal the same sampler on a fresh replica of its recorded gates (history independence, double precision); a third of the runs use a sparse-support gate vocabulary so wrong distributions show as unsupported strings; interrupts are raised at a recorded line inside readers of the exact classes and later queries must still be right. Sampling: evidence, not proof.",
         design_ref="DESIGN.md §3.4",
-        note="sample_gate_by_gate needs networkx, which is not installed here, and did not run; sample_chaotic only with every qubit as marginal qubit (otherwise it is approximate by design); PEPS/PEPO simple-update circuits truncate by construction and are out; a suspended sampler is accepted when its sample is supported on any state held since it first ran.",
+        note="sample_gate_by_gate needs networkx, which is not installed here, and did not run; sample_chaotic only with every qubit as marginal qubit (otherwise it is approximate by design); PEPS/PEPO simple-update circuits truncate by construction and are out; a suspended sampler is accepted when its sample is supported on any state the circuit held since it first ran; with simplify_sequence in ('R', '') norms are not equalised (documented NaN for an all-zero tensor when check_zero is off).",
     ),
     "C18": dict(
         category="exploration",
         technique="deterministic simulation: seeded history search over (method x state kind x Hamiltonian representation x t0 x callbacks) and update-time sequences, at_times generators advanced / abandoned, cancellation through int_stop at a recorded accepted integrator step; expm / own RK4 propagator reference and conservation invariants at every observed state",
-        text="Every combination of method (solve, integrate with both steppers, expm), ket / pure / mixed density operator, dense / sparse / pre-diagonalised / LinearOperator / callable H(t), non-zero t0 and 2- or 3-argument / dict callbacks is constructed: it must either be refused or satisfy, at every state observed (pt after each update, each yielded state, every (t, pt) a callback or int_stop saw, the state at evo.t after a cancellation), pt = U p0 (U^dag) within tolerance plus norm/trace, purity and energy conservation, and evo.t = requested time. Update sequences are non-uniform, repeated, tiny, and non-monotonic for solve. Sampling: evidence, not proof.",
+        text="Every combination of method (solve, integrate with both steppers, expm), ket / pure / mixed density operator, dense / sparse / pre-diagonalised / LinearOperator / callable H(t), non-zero t0 and 2- or 3-argument / dict callbacks is constructed: it must either be refused or satisfy, at every state observed (pt after each update, each yielded state, every (t, pt) a callback or int_stop saw, the state at evo.t after a cancellation), pt = U p0 (U^dag) within tolerance plus norm/trace, purity and energy conservation, and evo.t = requested time. Update sequences are non-uniform, repeated, tiny, and non-monotonic for solve; a quarter of the runs use progbar=True (real tqdm bars, output disabled), which re-installs the integrator's step callback on every update_to. Sampling: evidence, not proof.",
         design_ref="DESIGN.md §3.7",
         note="scipy.linalg.expm and an own fixed-step RK4 propagator are the reference; integrate judged at 2e-6*max(1,||H|| |t-t0|) (scipy default rtol 1e-6); the scipy steppers run for real; quimb.Lazy Hamiltonians are outside the listed representations.",
     ),
